@@ -292,7 +292,7 @@ def evaluate(r, scn, ops, recs):
         if oc == 'HANG':
             V('C05.overrun', 'call with timeout %r never returned: %s' % (Teff, rec['exc']))
             return out
-        if dur > Teff * 1e6 + EPS_US:
+        if dur > Teff * 1e6 + EPS_US + (scn.get('delayafterread') or 0) * 1e6:
             V('C05.overrun', 'call with timeout %r took %.3f virtual s' % (Teff, dur / 1e6))
             return out
         connected = kind in ('silent', 'trickle', 'burst', 'late_match', 'ready', 'ready_nomatch', 'echo_off', 'trickle_then_match')
@@ -309,7 +309,10 @@ def evaluate(r, scn, ops, recs):
         if oc == 'HANG':
             V('C05.none', 'timeout=None never returned although the peer produced its event at %.3f s: %s' % ((te or 0) / 1e6, rec['exc']))
             return out
-        if te is not None and dur > te + EPS_US + (0 if entry != 'waitnoecho' else 100000):
+        # the instance's own delayafterread is slept after every read: that is configuration, not overrun
+        nreads = rec.get('c1', 0) - rec.get('c0', 0)
+        allow = int(nreads * (scn.get('delayafterread') or 0.0001) * 1.5e6)
+        if te is not None and dur > te + EPS_US + allow + (0 if entry != 'waitnoecho' else 100000):
             V('C05.none', 'timeout=None returned %.3f s after the awaited event' % ((dur - te) / 1e6))
             return out
     if T == 0 and entry not in ('waitnoecho',):
